@@ -56,8 +56,8 @@ type RawPub struct {
 //	Mut ""             genuine
 //	Mut "sig-bit"      one bit of the signature octets flipped (bit Arg)
 //	Mut "wrong-key"    signed by pool key OtherKey (same algorithm family, different key)
-//	Mut "size"         signed for Size+1+Arg%7, Size presented
-//	Mut "ts"           signed for TS+1+Arg%7, TS presented
+//	Mut "size"         signed for Size, Size+1+Arg%7 presented
+//	Mut "ts"           signed for TS, TS+1+Arg%7 presented
 //	Mut "root"         one bit of the presented root flipped after signing
 //	Mut "trailing"     1+Arg%3 octets appended after the DigitallySigned structure
 //	Mut "truncated"    DigitallySigned cut to Arg%len octets (0 = absent signature)
@@ -161,6 +161,22 @@ func tsOf(t *RawTS) *timestamppb.Timestamp {
 // signDS signs data (SHA-256) with the pool key and returns the RFC 5246 DigitallySigned encoding.
 // Only RSA (PKCS#1 v1.5) and ECDSA keys are used for tree heads (RFC 6962 s2.1.4).
 func signDS(keyName string, data []byte) []byte {
+	ck := keyName + "|" + string(data)
+	if ds, ok := sigCache[ck]; ok {
+		return append([]byte(nil), ds...)
+	}
+	ds := signFresh(keyName, data)
+	sigCache[ck] = ds
+	return append([]byte(nil), ds...)
+}
+
+// sigCache makes signing a pure function of (key, content) within one case, so that a broken frozen
+// STH carries byte for byte the signature of its well-formed twin. Checks run sequentially.
+var sigCache = map[string][]byte{}
+
+func resetSignatures() { sigCache = map[string][]byte{} }
+
+func signFresh(keyName string, data []byte) []byte {
 	k := keys.Get(keyName)
 	h := sha256.Sum256(data)
 	sig, err := k.Signer.Sign(rand.Reader, h[:], crypto.SHA256)
@@ -189,12 +205,15 @@ func sthOf(s *RawSTH) *configpb.SignedTreeHead {
 	}
 	var root32 [32]byte
 	copy(root32[:], s.Root)
+	// "size" / "ts": the genuine content is signed (same signature octets as the well-formed twin), an
+	// altered value is presented
 	size, ts := uint64(s.Size), uint64(s.TS)
+	showSize, showTS := s.Size, s.TS
 	switch s.Mut {
 	case "size":
-		size += uint64(1 + s.Arg%7)
+		showSize += int64(1 + s.Arg%7)
 	case "ts":
-		ts += uint64(1 + s.Arg%7)
+		showTS += int64(1 + s.Arg%7)
 	}
 	in, err := rfc6962.STHSignatureInput(0, ts, size, root32)
 	if err != nil {
@@ -226,30 +245,30 @@ func sthOf(s *RawSTH) *configpb.SignedTreeHead {
 	case "truncated":
 		ds = ds[:s.Arg%len(ds)]
 	}
-	return &configpb.SignedTreeHead{TreeSize: s.Size, Timestamp: s.TS, Sha256RootHash: root, TreeHeadSignature: ds}
+	return &configpb.SignedTreeHead{TreeSize: showSize, Timestamp: showTS, Sha256RootHash: root, TreeHeadSignature: ds}
 }
 
 func logOf(l *RawLog) *configpb.LogConfig {
 	c := &configpb.LogConfig{
-		LogId:                 l.ID,
-		Prefix:                l.Prefix,
-		OverrideHandlerPrefix: l.Override,
-		RootsPemFile:          l.Roots,
-		PrivateKey:            anyOf(l.Priv),
-		PublicKey:             pubOf(l.Pub),
-		RejectExpired:         l.RejExp,
-		RejectUnexpired:       l.RejUnexp,
-		ExtKeyUsages:          l.EKUs,
-		NotAfterStart:         tsOf(l.Start),
-		NotAfterLimit:         tsOf(l.Limit),
-		AcceptOnlyCa:          l.OnlyCA,
-		LogBackendName:        l.Backend,
-		IsMirror:              l.Mirror,
-		IsReadonly:            l.Readonly,
-		MaxMergeDelaySec:      l.MaxDelay,
-		ExpectedMergeDelaySec: l.ExpDelay,
-		FrozenSth:             sthOf(l.STH),
-		RejectExtensions:      l.RejExt,
+		LogId:                       l.ID,
+		Prefix:                      l.Prefix,
+		OverrideHandlerPrefix:       l.Override,
+		RootsPemFile:                l.Roots,
+		PrivateKey:                  anyOf(l.Priv),
+		PublicKey:                   pubOf(l.Pub),
+		RejectExpired:               l.RejExp,
+		RejectUnexpired:             l.RejUnexp,
+		ExtKeyUsages:                l.EKUs,
+		NotAfterStart:               tsOf(l.Start),
+		NotAfterLimit:               tsOf(l.Limit),
+		AcceptOnlyCa:                l.OnlyCA,
+		LogBackendName:              l.Backend,
+		IsMirror:                    l.Mirror,
+		IsReadonly:                  l.Readonly,
+		MaxMergeDelaySec:            l.MaxDelay,
+		ExpectedMergeDelaySec:       l.ExpDelay,
+		FrozenSth:                   sthOf(l.STH),
+		RejectExtensions:            l.RejExt,
 		CtfeStorageConnectionString: l.Conn,
 	}
 	if l.CTFEStore {
